@@ -49,6 +49,18 @@ deriving Repr, DecidableEq
 /-- the application's `HeaderMap`: `append` for every field, in order -/
 def mapOf (l : List FieldLine) : HeaderMap := l.foldl (fun m f => hmAppend m f.1 f.2) []
 
+/-- ... with the capacity of `http::HeaderMap` (`hmTryAppend`): `none` = some `append` of the
+    application finds the map full (`try_append` fails, `append` panics) -/
+def fillFrom : HeaderMap → List FieldLine → Option HeaderMap
+  | m, [] => some m
+  | m, f :: r =>
+    match hmTryAppend m f.1 f.2 with
+    | some m' => fillFrom m' r
+    | none => none
+
+/-- the application can hold the fields (in this order of `append`s) in a `HeaderMap` -/
+def Holdable (l : List FieldLine) : Prop := (fillFrom [] l).isSome = true
+
 /-- `Header::request(..)` / `Header::response(..)` for the message head -/
 def headerOf (m : Message) : Headers.Res Header :=
   match m.head with
